@@ -11,6 +11,10 @@ pub mod path;
 #[cfg(feature = "compiler")]
 pub mod compiler;
 
+/// Scheduling points for the external verification harness (additive, off by default).
+#[cfg(feature = "verif-hooks")]
+pub mod verif_hooks;
+
 #[cfg(feature = "compiler")]
 pub use compiler::prelude;
 
